@@ -11,6 +11,8 @@ def main(tier, seed):
         for i in range(parts):
             jobs.append(("props.store", "retry", ("C09", n, k, 1500 if tier == "quick" else 30000, (i, parts))))
     c.run_jobs(jobs)
+    if tier != "quick":
+        c.run_kani(['message_status_codec'])
     return c.finish(
         rule="n stored messages with symbolic status / retry_times / update_time, symbolic retry limit (1..3), interval and clock readings; k operations from {tick, ack, action, redo, clear}; "
              "after every operation each message is compared with the reference retry automaton (obligations are z3 validity queries)",
